@@ -126,6 +126,23 @@ fn real_main(args: &[String]) -> i32 {
             }
             0
         }
+        "determinism" => {
+            // N run indices, executed in two child processes with different driver-thread counts
+            let Some(_) = check_by_id(&args[2]) else { return 2 };
+            let tier = arg(args, "--tier").unwrap_or("quick").to_string();
+            let n: u64 = arg(args, "--n").and_then(|s| s.parse().ok()).unwrap_or(256);
+            let exe = std::env::current_exe().unwrap();
+            let run = |threads: &str| -> Vec<String> {
+                let out = std::process::Command::new(&exe)
+                    .args(["digests", &args[2], "--seed", &seed.to_string(), "--tier", &tier, "--from", "0", "--to", &n.to_string(), "--threads", threads])
+                    .output().expect("child");
+                String::from_utf8_lossy(&out.stdout).lines().map(|s| s.to_string()).collect()
+            };
+            let (a, b) = (run("1"), run("16"));
+            let diff = a.iter().zip(&b).filter(|(x, y)| x != y).count() + a.len().abs_diff(b.len());
+            println!("determinism {}: {} runs x 2 processes (1 and 16 driver threads), {} differences", args[2], a.len(), diff);
+            if diff == 0 && a.len() as u64 == n { 0 } else { 2 }
+        }
         "one" => {
             let Some(check) = check_by_id(&args[2]) else { return 2 };
             let tier = arg(args, "--tier").unwrap_or("quick").to_string();
